@@ -291,8 +291,14 @@ def main(argv=None):
 
     wall = time.time() - t0
     # --- evidence
+    ev = mod.evidence(pid, args.tier, seed, jobs, results, good, wall)
+    # vacuity guard: a batch in which most runs did nothing (every run failing before its first cycle, say) proves
+    # nothing and must not look like a pass
+    nontrivial = ev["coverage"].get("distinct_nontrivial", 0)
+    if jobs and nontrivial < 0.5 * len(jobs):
+        harness_errors.append(f"vacuous batch: only {nontrivial} of {len(jobs)} runs were non-trivial "
+                              f"(on the reviewed tree more than 80 % are)")
     if not args.no_evidence:
-        ev = mod.evidence(pid, args.tier, seed, jobs, results, good, wall)
         ev["coverage"]["determinism"] = det
         if pid == "C07":
             ev["coverage"]["cross_process_pairs"] = cross
